@@ -34,23 +34,26 @@ ENGINE = "sansio"
 TECHNIQUE = "constructed certificate matrix with ground truth by construction; real OpenSSL peers in memory"
 BUDGET = {"quick": (480, 18), "thorough": (40_000, 200)}
 WORKERS = {"quick": 4, "thorough": 16}
-REQUIRED = ["accept_when_expected", "reject_when_expected", "failure_signalled", "no_appdata_on_reject", "appdata_delivered", "insecure_waives"]
+REQUIRED = ["accept_when_expected", "reject_when_expected", "failure_signalled", "no_appdata_on_reject", "appdata_delivered", "insecure_waives", "foreign_anchor_vs_trust_config"]
 RULE = (
     "cell = (leaf class x identity form x identity source x trust configuration x ssl_insecure); leaf classes: SAN exact / "
     "among many / other name / left-most wildcard / wildcard spanning two labels / partial wildcards / inner wildcard / CN only / "
-    "CN with non-DNS SAN / IP SAN for a DNS identity / expired / not yet valid / self-signed / other root / missing, supplied, "
+    "CN with non-DNS SAN / IP SAN for a DNS identity / expired / not yet valid / self-signed / other root / certifi stand-in root / "
+    "directory-only root / missing, supplied, "
     "supplied+root, expired intermediate, and for IP identities IP SAN exact / among / other / IP as dNSName / CN only / wildcard; "
     "identity forms: DNS name, upper-case, A-label, U-label, IPv4, IPv6; identity sources: server.sni, client.sni (address names "
-    "something else), server address; trust: CA file, hashed CA directory, default store, CA file of another root (only CA file and default "
-    "store when ssl_insecure is on). The whole "
-    "matrix is enumerated once with canonical names (both tiers), further cases repeat random cells with random labels, "
+    "something else), server address; trust: CA file, hashed CA directory only, default store (certifi stand-in root), CA file of "
+    "another root, CA file + hashed directory of a second CA; issuers: configured CA, directory-only CA, certifi stand-in CA, "
+    "unknown CA, self-signed. The matrix (complete cross of class x identity form x source x ssl_insecure under the CA-file "
+    "configuration, class x identity form under every other trust configuration) "
+    "is enumerated once with canonical names (both tiers), further cases repeat random cells with random labels, "
     "validity windows, TLS 1.2/1.3 peers, lazy/eager connection flow and random segmentation of the server flight. "
     "distinct = cell (+flow, TLS version for the random part); every cell is non-trivial (a full handshake attempt is made)"
 )
 ASSUMPTIONS = [
     "expected verdicts follow RFC 5280 path validation and RFC 6125 name matching with the statement's restrictions (no partial wildcards, no CN fallback); ambiguous cells (e.g. '*.tld', trailing dots) are not generated",
     "validity windows are days away from the wall clock, so the real time used by OpenSSL cannot flip a verdict",
-    "the default trust store (certifi) does not contain the throw-away roots",
+    "the default trust store is a stand-in: certifi.where() is pointed at a bundle holding one throw-away root (C) whose key the harness owns; the real certifi bundle is not consulted",
 ]
 LEVEL_TEXT = (
     "Exploration over a constructed matrix: every class x name form x trust x insecure cell is executed with canonical "
@@ -78,6 +81,8 @@ DNS_CLASSES = {
     "not-yet-valid": ("root_a", [], "future", True),
     "self-signed": ("self", [], "ok", True),
     "other-root": ("root_b", [], "ok", True),
+    "certifi-root": ("root_c", [], "ok", True),
+    "dir-only-root": ("root_d", [], "ok", True),
     "missing-intermediate": ("int_a", [], "ok", True),
     "with-intermediate": ("int_a", ["int_a"], "ok", True),
     "with-intermediate-and-root": ("int_a", ["int_a", "root_a"], "ok", True),
@@ -92,24 +97,48 @@ IP_CLASSES = {
     "wildcard-vs-ip": ("root_a", [], "ok", False),
     "ipsan-expired": ("root_a", [], "expired", True),
     "ipsan-other-root": ("root_b", [], "ok", True),
+    "ipsan-certifi-root": ("root_c", [], "ok", True),
     "ipsan-with-intermediate": ("int_a", ["int_a"], "ok", True),
 }
 ID_FORMS = ["dns", "upper", "idn-a", "idn-u", "ipv4", "ipv6"]
 SOURCES = ["server.sni", "client.sni", "address"]
-TRUSTS = ["cafile", "cadir", "default", "cafile-b"]
+TRUSTS = ["cafile", "cadir", "default", "cafile-b", "file+dir"]
+# trust anchors of each configuration: A = the configured CA, B = another private root, C = stand-in for the certifi
+# bundle (only in force when neither a CA file nor a CA directory is configured), D = a CA that only lives in a hashed directory
+TRUST_ANCHORS = {"cafile": {"A"}, "cadir": {"A"}, "default": {"C"}, "cafile-b": {"B"}, "file+dir": {"A", "D"}}
+
+
+def full_product():
+    """Every (class, identity form, identity source, trust configuration, ssl_insecure) combination (random part)."""
+    return [
+        (cls, idf, src, trust, insecure)
+        for idf in ID_FORMS
+        for cls in (IP_CLASSES if idf in ("ipv4", "ipv6") else DNS_CLASSES)
+        for src in SOURCES
+        for trust in TRUSTS
+        for insecure in (False, True)
+    ]
 
 
 def matrix():
+    """The part enumerated once per run: class x identity form crossed completely with identity source and ssl_insecure
+    under the CA-file configuration, and with every other trust configuration (identity source rotating, which does not
+    interact with trust anchors; ssl_insecure on additionally for the default store)."""
     cells = []
+    n = 0
     for idf in ID_FORMS:
         classes = IP_CLASSES if idf in ("ipv4", "ipv6") else DNS_CLASSES
         for cls in classes:
             for src in SOURCES:
-                for trust in TRUSTS:
-                    for insecure in (False, True):
-                        if insecure and trust in ("cadir", "cafile-b"):
-                            continue  # with verification waived the trust configuration axis is thinned to {CA file, default store}
-                        cells.append((cls, idf, src, trust, insecure))
+                for insecure in (False, True):
+                    cells.append((cls, idf, src, "cafile", insecure))
+            for trust in TRUSTS:
+                if trust == "cafile":
+                    continue
+                n += 1
+                cells.append((cls, idf, SOURCES[n % 3], trust, False))
+                if trust == "default":
+                    cells.append((cls, idf, SOURCES[(n + 1) % 3], trust, True))
     return cells
 
 
@@ -157,7 +186,7 @@ def leaf_for(pki: Pki, cls, canon, r=None):
     if not is_ip:
         first, _, parent = canon.partition(".")
         grand = parent.partition(".")[2]
-        if cls in ("san-exact", "expired", "not-yet-valid", "self-signed", "other-root", "missing-intermediate", "with-intermediate", "with-intermediate-and-root", "expired-intermediate"):
+        if cls in ("san-exact", "expired", "not-yet-valid", "self-signed", "other-root", "certifi-root", "dir-only-root", "missing-intermediate", "with-intermediate", "with-intermediate-and-root", "expired-intermediate"):
             sans = [f"dns:{canon}"]
         elif cls == "san-among-many":
             sans = ["dns:unrelated.test", "ip:198.51.100.1", f"dns:{canon}", "email:a@b.test"]
@@ -185,7 +214,7 @@ def leaf_for(pki: Pki, cls, canon, r=None):
             raise AssertionError(cls)
     else:
         other = "192.0.2.251" if "." in canon else "2001:db8::fffe"
-        if cls in ("ipsan-exact", "ipsan-expired", "ipsan-other-root", "ipsan-with-intermediate"):
+        if cls in ("ipsan-exact", "ipsan-expired", "ipsan-other-root", "ipsan-certifi-root", "ipsan-with-intermediate"):
             sans = [f"ip:{canon}"]
         elif cls == "ipsan-among-many":
             sans = ["dns:unrelated.test", f"ip:{other}", f"ip:{canon}"]
@@ -210,9 +239,9 @@ def expected(cls, trust, insecure):
     issuer, chain, time, names_ok = (IP_CLASSES if cls in IP_CLASSES else DNS_CLASSES)[cls]
     if insecure:
         return True
-    anchor = {"root_a": "A", "int_a": "A", "int_a_expired": "A", "root_b": "B", "self": None}[issuer]
-    trusted = (anchor == "A" and trust in ("cafile", "cadir")) or (anchor == "B" and trust == "cafile-b")
-    chain_ok = issuer in ("root_a", "root_b") or (issuer == "int_a" and "int_a" in chain)
+    anchor = {"root_a": "A", "int_a": "A", "int_a_expired": "A", "root_b": "B", "root_c": "C", "root_d": "D", "self": None}[issuer]
+    trusted = anchor in TRUST_ANCHORS[trust]
+    chain_ok = issuer in ("root_a", "root_b", "root_c", "root_d") or (issuer == "int_a" and "int_a" in chain)
     return trusted and chain_ok and time == "ok" and names_ok
 
 
@@ -303,6 +332,11 @@ def state():
     if not _STATE:
         pki = Pki(prefix="vf-c15-")
         atexit.register(pki.cleanup)
+        # The public CA bundle is substituted by a stand-in root we hold the key of (we are offline and own no public CA):
+        # mitmproxy.net.tls asks certifi.where() for the default store, so "default" trust = {root C}.
+        import certifi
+
+        certifi.where = lambda: str(pki.cafile_c)
         ta = tlsconfig.TlsConfig()
         tctx = taddons.context(ta)
         _STATE.update(pki=pki, ta=ta, tctx=tctx)
@@ -323,8 +357,8 @@ def run_cell(cell, r, canonical):
 
     tctx.options.update(
         ssl_insecure=insecure,
-        ssl_verify_upstream_trusted_ca={"cafile": str(pki.cafile_a), "cafile-b": str(pki.cafile_b)}.get(trust),
-        ssl_verify_upstream_trusted_confdir=str(pki.cadir_a) if trust == "cadir" else None,
+        ssl_verify_upstream_trusted_ca={"cafile": str(pki.cafile_a), "cafile-b": str(pki.cafile_b), "file+dir": str(pki.cafile_a)}.get(trust),
+        ssl_verify_upstream_trusted_confdir={"cadir": str(pki.cadir_a), "file+dir": str(pki.cadir_d)}.get(trust),
     )
     client = connection.Client(peername=("198.51.100.7", 51234), sockname=("127.0.0.1", 8080), timestamp_start=1.0, state=connection.ConnectionState.OPEN)
     ctx = context.Context(client, tctx.options)
@@ -422,6 +456,8 @@ def classify(cell, kind):
 def judge(ctx, cell, o):
     cls, idf, src, trust, insecure = cell
     exp = expected(cls, trust, insecure)
+    if cls in ("certifi-root", "ipsan-certifi-root", "dir-only-root") and not insecure:
+        ctx.count("foreign_anchor_vs_trust_config")  # public-bundle / directory-only CA against each trust configuration
     w = {
         "cell": {"class": cls, "identity_form": idf, "identity_source": src, "trust": trust, "ssl_insecure": insecure},
         "identity": o["ident"], "leaf_sans": o["sans"], "leaf_cn": o["cn"], "flow": "lazy" if o["lazy"] else "eager",
@@ -465,13 +501,14 @@ def judge(ctx, cell, o):
 
 def run(ctx):
     cells = matrix()
+    allcells = full_product()
     ctx.extra["matrix_cells_total"] = len(cells)
     try:
         for i in ctx.cases():
             r = ctx.rng
             k = i * ctx.nworkers + ctx.worker
             canonical = k < len(cells)
-            cell = cells[k] if k < len(cells) else r.choice(cells)
+            cell = cells[k] if k < len(cells) else r.choice(allcells)
             try:
                 o = run_cell(cell, r, canonical)
             except Exception as e:  # noqa -- an exception escaping the layer/driver
